@@ -158,6 +158,7 @@ static void tbl_write_rowgroup(vrng_t* r, carquet_writer_t* w, const table_t* t,
 }
 static void tbl_writer_options(const table_t* t, carquet_writer_options_t* o) {
     carquet_writer_options_init(o); o->compression = (carquet_compression_t)t->codec; if (!t->page_size_default) o->page_size = t->page_size;
+    { const char* wo = getenv("CQV_WRITER_OPTS"); if (wo && strstr(wo, "nostats")) o->write_statistics = false; if (wo && strstr(wo, "index")) o->write_page_index = true; if (wo && strstr(wo, "bloom")) o->write_bloom_filters = true; }   /* option fields that do not change what the file must contain (C14 uses them: checksums are independent of these switches) */
 }
 /* returns 0 when the writer could not even be created (refusal) */
 static int tbl_write_path(vrng_t* r, const table_t* t, const char* path, twrite_result_t* res) {
